@@ -247,12 +247,12 @@ class Ctx:
         self.log("audit %s: %d theorems, ok=%s" % (module, len(names), ok))
         return ok
 
-    def prove(self, module):
+    def prove(self, module, also=()):
         """build + audit; if the build fails, every theorem of the module is an
-        undischarged obligation."""
+        undischarged obligation.  `also`: generated modules (imported by `module`) whose theorems are audited too."""
         if self.build(module):
-            return self.audit(module)
-        for n in theorem_names(module):
+            return self.audit(module, also)
+        for n in theorem_names(module) + [x for m in also for x in theorem_names(m)]:
             self.obligations.append(dict(name=n, ok=False, axioms=None, kind="theorem"))
         return False
 
